@@ -61,11 +61,11 @@ func (o dbOp) String() string {
 	case "put":
 		return fmt.Sprintf("Put(%s,%s)", dbKeyNames[o.K], dbValNames[o.V])
 	case "del":
-		return fmt.Sprintf("Delete(%s)", dbKeyNames[o.K])
+		return fmt.Sprintf("Delete(%s)", dbKeyName(o.K))
 	case "putrot":
 		return fmt.Sprintf("Put(%s,%s)+Flush", dbKeyNames[o.K], dbValNames[o.V])
 	case "delrot":
-		return fmt.Sprintf("Delete(%s)+Flush", dbKeyNames[o.K])
+		return fmt.Sprintf("Delete(%s)+Flush", dbKeyName(o.K))
 	case "rot":
 		return "Rotate+Flush"
 	case "cmp":
@@ -88,6 +88,24 @@ func dbProgStr(init int, ops []dbOp) string {
 
 var dbKeys = [][]byte{[]byte("a"), []byte("b"), []byte("c"), {0, 0, 0, 3}}
 var dbKeyNames = []string{"a", "b", "c", "L3"} // L3 = a key of the legacy fixture tables
+
+// dbEmptyKey (operation key index 4): only deletable - Put rejects it, Delete accepts it and logs/flushes a tombstone for it
+const dbEmptyKey = 4
+
+func dbKey(k int) []byte {
+	if k == dbEmptyKey {
+		return []byte{}
+	}
+	return dbKeys[k]
+}
+
+func dbKeyName(k int) string {
+	if k == dbEmptyKey {
+		return "<empty>"
+	}
+	return dbKeyNames[k]
+}
+
 var dbVals = [][]byte{[]byte("x"), incompressible(300, 21), incompressible(50, 22), incompressible(300, 23)}
 var dbValNames = []string{"x", "Y300", "Z50", "W300"}
 
@@ -202,11 +220,11 @@ func (s *dbSession) apply(i int, op dbOp) bool {
 			}
 		}
 	case "del", "delrot":
-		if err := s.db.Delete(string(dbKeys[op.K])); err != nil {
+		if err := s.db.Delete(string(dbKey(op.K))); err != nil {
 			s.viol("", "op %d %v returned %v", i, op, err)
 			return false
 		}
-		delete(s.ref, string(dbKeys[op.K]))
+		delete(s.ref, string(dbKey(op.K)))
 		if op.Op == "delrot" {
 			if err := s.db.VerifRotateAndWait(); err != nil {
 				s.viol("", "op %d forced rotation failed: %v", i, err)
